@@ -4,6 +4,9 @@
 -/
 import Fbr.Ovl
 import Fbr.Lemmas.OvlMerge
+import Fbr.Lemmas.OvlHoare
+import Fbr.Lemmas.OvlInv
+import Fbr.Lemmas.OvlNoUpper
 
 namespace Fbr.Thm.C10
 open Fbr.Ovl
@@ -133,5 +136,62 @@ example : merge exDisk [0, 3] = .none := by decide                    -- ... sha
 example : cands exDisk [] 2 = [0, 1] := by decide
 
 end Examples
+
+/-! ## lower layers are never modified
+
+  `run (importFs d) ops` is the state after `OverlayFs::new` + `import` over the disk `d` and the
+  history `ops` (any layer contents, any operations, any length).  `log` holds every call of a
+  mutating layer method (mkdir, create, mknod, symlink, link, unlink, rmdir, setattr, setxattr,
+  removexattr, write, open-for-write, create_whiteout, delete_whiteout, set_opaque) the overlay
+  issued, with the index of the layer it was issued on (0 = upper). -/
+
+/-- Every mutating call the overlay ever issues is issued on the upper layer, and the lower
+    layers of the disk are, as functions, exactly the ones the history started with — for every
+    initial disk and every history.  (Proved through the invariant "a real inode flagged
+    `in_upper_layer` belongs to layer 0", which `RealInode`'s mutators and the direct
+    `layer.<method>` call sites rely on.) -/
+theorem lowers_never_mutated (d : Disk) (ops : List Op) :
+    (∀ c ∈ (run (importFs d) ops).log, c.layer = 0) ∧ (run (importFs d) ops).disk.lowers = d.lowers := by
+  have h := run_inv (I := upperSpec d.lowers) ops _ (import_upper d)
+  exact ⟨h.2.1, h.2.2⟩
+
+/-- the same for a single operation from any state reachable that way, including failed ones -/
+theorem step_keeps_lowers (d : Disk) (ops : List Op) (op : Op) :
+    (runOp op (run (importFs d) ops)).st.disk.lowers = d.lowers := by
+  have h := run_inv (I := upperSpec d.lowers) (ops ++ [op]) _ (import_upper d)
+  have e : run (importFs d) (ops ++ [op]) = (runOp op (run (importFs d) ops)).st := by
+    generalize importFs d = s
+    induction ops generalizing s with
+    | nil => rfl
+    | cons o rest ih => exact ih _
+  rw [e] at h
+  exact h.2.2
+
+/-- Without an upper layer nothing is ever changed: no mutating call is issued on any layer and
+    the disk stays literally the same, whatever the history. -/
+theorem no_upper_changes_nothing (d : Disk) (hd : d.upper = none) (ops : List Op) :
+    (run (importFs d) ops).log = [] ∧ (run (importFs d) ops).disk = d := by
+  have h := run_inv (I := noUpperSpec d) ops _ (import_noUpper d hd)
+  refine ⟨?_, h.2.2⟩
+  cases hl : (run (importFs d) ops).log with
+  | nil => rfl
+  | cons c rest => exact (h.2.1 c (by simp [hl])).elim
+
+/-- Without an upper layer every modifying operation (create, mkdir, mknod, symlink, link,
+    unlink, rmdir, open for writing, write, chmod, truncate, setxattr, removexattr) fails, after
+    any history, and leaves the disk and the (empty) call log as they were. -/
+theorem no_upper_modifying_fails (d : Disk) (hd : d.upper = none) (ops : List Op) (op : Op)
+    (hm : op.isModifying = true) :
+    ∃ e s', runOp op (run (importFs d) ops) = .err e s' ∧ s'.disk = d ∧ s'.log = [] := by
+  have h := run_inv (I := noUpperSpec d) ops _ (import_noUpper d hd)
+  have hf := runOp_fails hd op hm _ h
+  cases hr : runOp op (run (importFs d) ops) with
+  | ok a s' => exact (hf.1 a s' hr).elim
+  | err e s' =>
+    have h' := hf.2 e s' hr
+    refine ⟨e, s', rfl, h'.2.2, ?_⟩
+    cases hl : s'.log with
+    | nil => rfl
+    | cons c rest => exact (h'.2.1 c (by simp [hl])).elim
 
 end Fbr.Thm.C10
